@@ -280,6 +280,25 @@ pub fn check_prog(tc: &Toolchain, idx: usize, p: &Prog) -> Result<Result<&'stati
 
 pub fn run(tier: Tier) -> Report {
 	let mut rep = Report::new("C17", tier);
+	{
+		// the generated corpus consists of valid definitions only: if it no longer compiles, the derive
+		// macros reject valid input (and the layout of those definitions cannot be what they declare)
+		let rej = corpus_rejections();
+		if !rej.is_empty() {
+			let mut acc = Acc::default();
+			for (def, err) in rej {
+				acc.evaluations += 1;
+				acc.violate(Violation {
+					property: "C17".into(),
+					sub: "C17.corpus".into(),
+					key: "C17|generated-valid-definition-rejected".into(),
+					detail: format!("a valid generated definition no longer compiles: `{}`: {}", def, err),
+					case: json!({"sub": "C17.corpus", "definition": def, "error": err}),
+				});
+			}
+			rep.part("corpus build", "the generated corpus of valid type definitions must compile against the current tree", acc);
+		}
+	}
 	let tc = match toolchain() {
 		Ok(t) => t,
 		Err(e) => {
